@@ -118,6 +118,21 @@ def run(ck, ctx):
             ck.ob("R18.1", "the constructor records the name of axis k under a key numbered k",
                   ctor_key is not None and ctor_key[1] == (1, 0) and okv and len(comps[0].args) == 3, comps[0],
                   "NssGrid.__init__", g.show(comps[0], 3))
+            # nothing merged into meta after the axis names may replace them (later entries of a dict display win)
+            mres = I.res(meta, st0)
+            later = []
+            if mres.op == "Dict":
+                slots = I._dict_key_slots(mres)
+                pos_ax = [k_ for k_, (kd, i_) in enumerate(slots) if any(x is comps[0] for x in walk([mres.args[i_]]))]
+                if pos_ax:
+                    for kd, i_ in slots[pos_ax[-1] + 1:]:
+                        if kd[0] == "**" or (kd[0] == "k" and isinstance(kd[1], str) and ctor_key and
+                                             kd[1].startswith(ctor_key[0])) or kd[0] == "n":
+                            later.append(g.show(mres.args[i_], 2))
+            ck.ob("R18.1", "the axis-name entries of meta cannot be overridden by other metadata (they are merged last)",
+                  mres.op == "Dict" and not later, meta, "NssGrid.__init__",
+                  ("merged after the axis names: " + "; ".join(later[:3])) if later else g.show(mres, 2),
+                  construct="NssGrid.__init__: metadata merged after the axis names")
         else:
             ck.ob("R18.1", "the constructor records the axis names in its meta dictionary", False, meta,
                   "NssGrid.__init__", g.show(meta, 3))
